@@ -3,14 +3,15 @@
    IMSC reader), Model/ImscTime.v (the reader's time-expression parser, C04), Model/TimeCode.v (C12).  All statements are for
    unbounded inputs unless a bound is written in the statement. *)
 From TT Require Import Base.Prelude Base.ImscXml Model.ImscTime Model.TimeCode Model.ImscWrite Gen.ImscTables.
-From TT Require Import Proofs.C04.TimeSyntax Proofs.C05.Times Proofs.C05.Values.
-From Coq Require Import QArith.
+From TT Require Import Model.ImscStyles Model.ImscTiming Model.ImscWriteTree Model.ImscParams.
+From TT Require Import Proofs.C04.TimeSyntax Proofs.C05.Times Proofs.C05.Values Proofs.C05.Tree Proofs.C05.Params.
+From Coq Require Import QArith Qabs.
 Local Open Scope Z_scope.
 
 (* ---- times ------------------------------------------------------------------------------------------------------------------- *)
 (* clock time: a millisecond multiple below 100 h is written as hh:mm:ss.mmm and read back exactly, whatever the reader's rates *)
 Theorem C05_time_clock : forall t k fps tr fr,
-  (t == k # 1000)%Q -> 0 <= k < 360000000 -> 0 < tr -> (0 < fr)%Q ->
+  (t == k # 1000)%Q -> 0 <= k < 360000000 -> (0 < tr)%Q -> (0 < fr)%Q ->
   exists s, to_time_format SyClock fps t = Some s /\ exists q, parse_time_x (Some tr) (Some fr) s = TVal q /\ (q == t)%Q.
 Proof. exact time_clock. Qed.
 
@@ -61,47 +62,52 @@ Theorem C05_attr_roundtrip_background_partial : forall r g b a, byte r -> byte g
   print_style P_BackgroundColor (SColor (r, g, b, a)) = WAttr (print_color (r, g, b, a)) /\
   read_style P_BackgroundColor (print_color (r, g, b, a)) = Some (SColor (r, g, b, a)).
 Proof. exact background_roundtrip_partial. Qed.
-(* lengths: Python's format(x, "g") then parse_length gives x rounded to six significant digits in the same unit, for every rational
-   x and every unit, unless the writer switches to exponent notation (trigger uses_exponent: finding g-exponent) *)
-Theorem C05_length_roundtrip_partial : forall x u, 0 <= u <= 5 -> uses_exponent x = false ->
+(* lengths: to_ttml_number (Python's format(x, "g") - transcribed exactly over Q - rewritten without exponent by Decimal's "f"
+   formatting) then parse_length gives x rounded to six significant digits in the same unit, for every rational x and every unit *)
+Theorem C05_length_roundtrip : forall x u, 0 <= u <= 5 ->
   exists v, parse_len (print_len (mkLen x u)) = Some (mkLen v u) /\ (v == round6 x)%Q.
 Proof. exact len_roundtrip. Qed.
-Theorem C05_attr_roundtrip_length_partial : forall p l, p = P_FontSize \/ p = P_Disparity -> valid_len l ->
+Theorem C05_attr_roundtrip_length : forall p l, p = P_FontSize \/ p = P_Disparity -> valid_len l ->
   print_style p (SLen l) = WAttr (print_len l) /\ exists l', read_style p (print_len l) = Some (SLen l') /\ len_equiv l l'.
 Proof. exact length_property_roundtrip. Qed.
-Theorem C05_attr_roundtrip_line_height_partial : forall l, valid_len l ->
+Theorem C05_attr_roundtrip_line_height : forall l, valid_len l ->
   read_style P_LineHeight T_normal = Some SNormal /\ print_style P_LineHeight SNormal = WAttr T_normal /\
   exists l', read_style P_LineHeight (print_len l) = Some (SLen l') /\ len_equiv l l'.
 Proof. exact line_height_roundtrip. Qed.
+(* ebutts:linePadding in c (the units rh and rw, which the model also accepts, are the recorded finding linepadding-units) *)
 Theorem C05_attr_roundtrip_line_padding_partial : forall l, valid_len l -> l_unit l = U_c ->
   exists l', read_style P_LinePadding (print_len l) = Some (SLen l') /\ len_equiv l l'.
 Proof. exact line_padding_roundtrip_partial. Qed.
-Theorem C05_attr_roundtrip_extent_partial : forall w h, valid_len w -> valid_len h -> validate_style P_Extent (SExtent w h) = true ->
+Theorem C05_attr_roundtrip_extent : forall w h, valid_len w -> valid_len h -> validate_style P_Extent (SExtent w h) = true ->
   exists s, print_style P_Extent (SExtent w h) = WAttr s /\
   exists w' h', read_style P_Extent s = Some (SExtent w' h') /\ len_equiv w w' /\ len_equiv h h'.
 Proof. exact extent_roundtrip. Qed.
-Theorem C05_attr_roundtrip_origin_partial : forall x y, valid_len x -> valid_len y -> validate_style P_Origin (SOrigin x y) = true ->
+Theorem C05_attr_roundtrip_origin : forall x y, valid_len x -> valid_len y -> validate_style P_Origin (SOrigin x y) = true ->
   exists s, print_style P_Origin (SOrigin x y) = WAttr s /\
   exists x' y', read_style P_Origin s = Some (SOrigin x' y') /\ len_equiv x x' /\ len_equiv y y'.
 Proof. exact origin_roundtrip. Qed.
-Theorem C05_attr_roundtrip_padding_partial : forall b e a s, valid_len b -> valid_len e -> valid_len a -> valid_len s ->
+Theorem C05_attr_roundtrip_padding : forall b e a s, valid_len b -> valid_len e -> valid_len a -> valid_len s ->
   exists t, print_style P_Padding (SPadding b e a s) = WAttr t /\
   exists b' e' a' s', read_style P_Padding t = Some (SPadding b' e' a' s') /\
     len_equiv b b' /\ len_equiv e e' /\ len_equiv a a' /\ len_equiv s s'.
 Proof. exact padding_roundtrip. Qed.
 
-(* tts:textDecoration: all 27 values; tts:rubyReserve: none, a position, a position and a length; tts:textOutline: none, a
-   thickness, a colour and a thickness *)
+(* tts:textDecoration: the 26 values with at least one component are written and read back; the value without any component (which
+   changes nothing when specified on an element) is not written; tts:rubyReserve: none, a position, a position and a length;
+   tts:textOutline: none, a thickness, a colour and a thickness *)
 Theorem C05_attr_roundtrip_text_decoration : forall u l o,
-  exists s, print_style P_TextDecoration (STextDec u l o) = WAttr s /\ read_style P_TextDecoration s = Some (STextDec u l o).
+  match u, l, o with
+  | None, None, None => print_style P_TextDecoration (STextDec u l o) = WSkip
+  | _, _, _ => exists s, print_style P_TextDecoration (STextDec u l o) = WAttr s /\ read_style P_TextDecoration s = Some (STextDec u l o)
+  end.
 Proof. exact text_decoration_roundtrip. Qed.
-Theorem C05_attr_roundtrip_ruby_reserve_partial : forall pos l, 0 <= pos <= 3 -> valid_len l ->
+Theorem C05_attr_roundtrip_ruby_reserve : forall pos l, 0 <= pos <= 3 -> valid_len l ->
   read_style P_RubyReserve T_none = Some SNone /\ print_style P_RubyReserve SNone = WAttr T_none /\
   (exists s, print_style P_RubyReserve (SReserve pos None) = WAttr s /\ read_style P_RubyReserve s = Some (SReserve pos None)) /\
   (exists s, print_style P_RubyReserve (SReserve pos (Some l)) = WAttr s /\
              exists l', read_style P_RubyReserve s = Some (SReserve pos (Some l')) /\ len_equiv l l').
 Proof. exact ruby_reserve_roundtrip. Qed.
-Theorem C05_attr_roundtrip_text_outline_partial : forall r g b a l, byte r -> byte g -> byte b -> byte a -> valid_len l ->
+Theorem C05_attr_roundtrip_text_outline : forall r g b a l, byte r -> byte g -> byte b -> byte a -> valid_len l ->
   read_style P_TextOutline T_none = Some SNone /\ print_style P_TextOutline SNone = WAttr T_none /\
   (exists s, print_style P_TextOutline (SOutline None l) = WAttr s /\
              exists l', read_style P_TextOutline s = Some (SOutline None l') /\ len_equiv l l') /\
@@ -110,47 +116,137 @@ Theorem C05_attr_roundtrip_text_outline_partial : forall r g b a l, byte r -> by
 Proof. exact text_outline_roundtrip. Qed.
 
 (* tts:position as the writer prints it (edge, offset, edge, offset) *)
-Theorem C05_attr_roundtrip_position_partial : forall he ho ve vo,
+Theorem C05_attr_roundtrip_position : forall he ho ve vo,
   0 <= he <= 1 -> 0 <= ve <= 1 -> valid_len ho -> valid_len vo -> validate_style P_Position (SPosition he ho ve vo) = true ->
   exists s, print_style P_Position (SPosition he ho ve vo) = WAttr s /\
   exists ho' vo', read_style P_Position s = Some (SPosition he ho' ve vo') /\ len_equiv ho ho' /\ len_equiv vo vo'.
 Proof. exact position_roundtrip. Qed.
 
-(* tts:textShadow with one shadow, with or without blur radius and colour (two or more shadows: finding textshadow-list, refuted in
-   Findings/C05.v) *)
-Theorem C05_attr_roundtrip_text_shadow_partial : forall x y blur c, valid_len x -> valid_len y -> ovalid blur -> obyte c ->
-  read_style P_TextShadow T_none = Some SNone /\
-  exists s, print_style P_TextShadow (SShadows [(x, y, blur, c)]) = WAttr s /\
-  exists x' y' blur', read_style P_TextShadow s = Some (SShadows [(x', y', blur', c)]) /\
-    len_equiv x x' /\ len_equiv y y' /\ olen_equiv blur blur'.
-Proof. exact text_shadow_single_roundtrip. Qed.
+(* tts:textShadow: none, and every non-empty list of shadows, each with or without blur radius and colour *)
+Theorem C05_attr_roundtrip_text_shadow : forall l, Forall valid_shadow l -> l <> [] ->
+  read_style P_TextShadow T_none = Some SNone /\ print_style P_TextShadow SNone = WAttr T_none /\
+  exists s, print_style P_TextShadow (SShadows l) = WAttr s /\
+  exists l', read_style P_TextShadow s = Some (SShadows l') /\ Forall2 shadow_equiv l l'.
+Proof. exact text_shadow_roundtrip. Qed.
 
-(* tts:textEmphasis: the seven styles, the three positions, without colour or with any RGBA8 colour (none: finding none-special-value) *)
-Theorem C05_attr_roundtrip_text_emphasis_partial : forall st pos c, 0 <= st <= 6 -> 0 <= pos <= 2 -> obyte c ->
+(* tts:textEmphasis: none, the seven styles, the three positions, without colour or with any RGBA8 colour *)
+Theorem C05_attr_roundtrip_text_emphasis : forall st pos c, 0 <= st <= 6 -> 0 <= pos <= 2 -> obyte c ->
   exists s, print_style P_TextEmphasis (SEmph st c pos) = WAttr s /\ read_style P_TextEmphasis s = Some (SEmph st c pos).
 Proof. exact text_emphasis_roundtrip. Qed.
+Theorem C05_attr_roundtrip_none : forall p, p = P_TextEmphasis \/ p = P_RubyReserve \/ p = P_TextShadow \/ p = P_TextOutline ->
+  print_style p SNone = WAttr T_none /\ read_style p T_none = Some SNone /\ has_px p SNone = false.
+Proof. exact none_roundtrip. Qed.
 
-(* the writer's value printers raise AttributeError only on tts:textEmphasis none (finding none-special-value; refuted witness in
-   Findings/C05.v) and on `normal` outside tts:lineHeight, which is not a valid model value *)
-Theorem C05_total_partial : forall p v, print_style p v = WErr 3 ->
-  (v = SNone /\ p = P_TextEmphasis) \/ (v = SNormal /\ p <> P_LineHeight).
+(* tts:opacity and tts:luminanceGain: every number the model holds (an int, a Fraction, a float taken as the rational it denotes) is
+   written in fixed notation and read back by float() as the number rounded to six significant digits *)
+Theorem C05_attr_roundtrip_number : forall p x, p = P_Opacity \/ p = P_LuminanceGain ->
+  exists s, print_style p (SFrac x) = WAttr s /\ exists v, read_style p s = Some (SFrac v) /\ (v == round6 x)%Q.
+Proof. exact number_roundtrip. Qed.
+Theorem C05_attr_roundtrip_integer : forall p n, p = P_Opacity \/ p = P_LuminanceGain ->
+  exists s, print_style p (SInt n) = WAttr s /\ exists v, read_style p s = Some (SFrac v) /\ (v == round6 (inject_Z n))%Q.
+Proof. exact integer_roundtrip. Qed.
+(* tts:shear: read back rounded to six significant digits when that is within +-100 %; beyond, the reader clamps (finding shear-clamped,
+   refuted in Findings/C05.v) *)
+Theorem C05_attr_roundtrip_shear_partial : forall x, Qle_bool (Qabs (round6 x)) (100 # 1) = true ->
+  exists s, print_style P_Shear (SFrac x) = WAttr s /\ exists v, read_style P_Shear s = Some (SFrac v) /\ (v == round6 x)%Q.
+Proof. exact shear_roundtrip_partial. Qed.
+
+(* the writer's value printers never raise AttributeError on a value the model accepts (the special value normal outside
+   tts:lineHeight is not one) *)
+Theorem C05_total : forall p v, print_style p v = WErr 3 -> v = SNormal /\ p <> P_LineHeight.
 Proof. exact print_attribute_error. Qed.
-(* not proved (compared on generated documents only): the round trips of tts:fontFamily,
-   tts:opacity, tts:shear, tts:luminanceGain; the tree round trip  read (write d cfg) ~ d. *)
+(* ---- the tree: what the writer builds (Model/ImscWriteTree.v write_node, compared with imsc.writer.from_model on whole documents),
+   read back by the reader model of C04, element by element ------------------------------------------------------------------------- *)
+(* every kind of model element is written ... *)
+Theorem C05_tree_every_kind_written : forall cfg pp k id b e pr rg st an cs, k <> KSet -> k <> KText ->
+  exists x, write_node cfg pp (WElem k id b e pr rg st an cs) = Some x.
+Proof. exact write_node_some. Qed.
+(* ... as an element that the reader dispatches to the same class (body, div, p, span, br, region and the six ruby roles, rp included) *)
+Theorem C05_tree_kind : forall cfg pp k id b e preserve region styles anims cs x,
+  write_node cfg pp (WElem k id b e preserve region styles anims cs) = Some x -> classify (x_tag x) (x_attrs x) = Some k.
+Proof. exact written_kind. Qed.
+(* its content: the <set> elements of the animation steps, then the children - none dropped, none reordered - with the character data
+   of the Text children (adjacent ones are one run) exactly before the first child element or after the element it followed *)
+Theorem C05_tree_children : forall cfg pp k id b e preserve region styles anims cs x,
+  write_node cfg pp (WElem k id b e preserve region styles anims cs) = Some x -> w_has_children k = true ->
+  exists content, x_children x = List.map (write_set cfg) anims ++ content /\
+    norm (optl (x_text x) ++ flat_map items_of content) = norm (flat_map (arrive (write_node cfg (Some preserve))) cs).
+Proof. exact written_children. Qed.
+Theorem C05_tree_leaf : forall cfg pp k id b e preserve region styles anims cs x,
+  write_node cfg pp (WElem k id b e preserve region styles anims cs) = Some x -> w_has_children k = false ->
+  x_children x = List.map (write_set cfg) anims /\ x_text x = None.
+Proof. exact written_leaf. Qed.
+(* its attributes as the reader looks them up: xml:space gives back the model value, the region reference is read back, begin / end are
+   there exactly when the model element has them (with the printed time, whose value is the subject of the C05_time theorems), and neither
+   timeContainer, dur nor a style reference is written (the element is read as a par container without referential styling) *)
+Theorem C05_tree_space : forall cfg pp k id b e preserve region styles anims cs x,
+  write_node cfg pp (WElem k id b e preserve region styles anims cs) = Some x ->
+  forall inherited, (match pp with Some p0 => inherited = p0 | None => inherited = false end) -> read_space (x_attrs x) inherited = preserve.
+Proof. exact written_space. Qed.
+Theorem C05_tree_region : forall cfg pp k id b e preserve region styles anims cs x,
+  write_node cfg pp (WElem k id b e preserve region styles anims cs) = Some x ->
+  forall ev, (match region with Some r => mem_text r (e_regions ev) = true | None => True end) ->
+  read_region ev k (x_attrs x) = if k_has_region k then region else None.
+Proof. exact written_region. Qed.
+Theorem C05_tree_begin : forall cfg pp k id b e preserve region styles anims cs x,
+  write_node cfg pp (WElem k id b e preserve region styles anims cs) = Some x ->
+  get_attr (x_attrs x) A_begin = if w_has_timing k then match b with Some v => to_time_format (w_syn cfg) (w_fps cfg) v | None => None end else None.
+Proof. exact written_begin. Qed.
+Theorem C05_tree_end : forall cfg pp k id b e preserve region styles anims cs x,
+  write_node cfg pp (WElem k id b e preserve region styles anims cs) = Some x ->
+  get_attr (x_attrs x) A_end = if w_has_timing k then match e with Some v => to_time_format (w_syn cfg) (w_fps cfg) v | None => None end else None.
+Proof. exact written_end. Qed.
+Theorem C05_tree_par : forall cfg pp k id b e preserve region styles anims cs x,
+  write_node cfg pp (WElem k id b e preserve region styles anims cs) = Some x -> read_par (x_attrs x) = true.
+Proof. exact written_par. Qed.
+Theorem C05_tree_no_dur_no_refs : forall cfg pp k id b e preserve region styles anims cs x,
+  write_node cfg pp (WElem k id b e preserve region styles anims cs) = Some x -> get_attr (x_attrs x) A_dur = None /\ style_refs (x_attrs x) = [].
+Proof. exact written_no_dur. Qed.
+(* document parameters: what TTElement.from_model writes on tt is read back by the reader's parameter extractors (Model/ImscParams.v, compared
+   with the code on generated attribute sets): the language, the cell resolution (the default is not written and is what the reader
+   supplies), the display aspect ratio *)
+Theorem C05_tt_lang : forall cfg d, get_attr (x_attrs (write_tt cfg d)) A_lang = Some (wd_lang d).
+Proof. exact tt_lang. Qed.
+Theorem C05_tt_cell_resolution : forall cfg d, 0 < fst (wd_cell d) -> 0 < snd (wd_cell d) ->
+  extract_cell_resolution (x_attrs (write_tt cfg d)) = wd_cell d.
+Proof. exact tt_cell_resolution. Qed.
+Theorem C05_tt_display_aspect_ratio : forall cfg d n m, wd_dar d = Some (n, m) -> 0 < n -> 0 < m ->
+  extract_dar (x_attrs (write_tt cfg d)) = Some (inject_Z n / inject_Z m)%Q.
+Proof. exact tt_display_aspect_ratio. Qed.
+Theorem C05_tt_no_display_aspect_ratio : forall cfg d, wd_dar d = None -> extract_dar (x_attrs (write_tt cfg d)) = None.
+Proof. exact tt_no_display_aspect_ratio. Qed.
+(* not proved (compared on generated documents only): the pixel extent and the active area on tt; the composition of these element-level facts over the whole tree
+   (process (write_node n) ~ n: it involves the reader's implicit ends and its pruning of elements whose interval is empty), the
+   language of elements (not written: finding lang-not-written), and the round trip of tts:fontFamily (parse_font_families is not
+   transcribed). *)
 
 (* non-vacuity *)
-Example C05_example_g : format_g (1 # 3) = [48; 46; 51; 51; 51; 51; 51; 51] /\ format_g (2500000 # 1) = [50; 46; 53; 101; 43; 48; 54] /\ uses_exponent (1 # 3) = false.
+Example C05_example_g : format_g (1 # 3) = [48; 46; 51; 51; 51; 51; 51; 51] /\ format_g (2500000 # 1) = [50; 46; 53; 101; 43; 48; 54] /\
+  print_num (2500000 # 1) = [50; 53; 48; 48; 48; 48; 48] /\ print_num (1 # 100000) = [48; 46; 48; 48; 48; 48; 49].
 Proof. repeat split; reflexivity. Qed.
+Example C05_example_tree :
+  write_node (mkWcfg SyClock None) (Some false)
+    (WElem KSpan None None None false None [] [] [WText [65]; WElem KSpan None None None false None [] [] []; WText [66]; WText [67]])
+  = Some (X T_span [] (Some [65]) None [X T_span [] None (Some [66; 67]) []]).
+Proof. reflexivity. Qed.
 Example C05_example_valid_len : valid_len (mkLen (12345678 # 1000) U_px).
-Proof. split; [unfold U_px; cbn; lia|reflexivity]. Qed.
+Proof. unfold valid_len, U_px; cbn; lia. Qed.
+Example C05_example_shadows : Forall valid_shadow [(mkLen 1 U_px, mkLen 2 U_px, None, None); (mkLen 3 U_em, mkLen 4 U_em, Some (mkLen 1 U_c), Some (255, 0, 0, 255))].
+Proof. repeat constructor; unfold valid_len, U_px, U_em, U_c, byte; cbn; lia. Qed.
 
 Print Assumptions C05_time_clock.  Print Assumptions C05_time_frames.  Print Assumptions C05_time_frames_error.
 Print Assumptions C05_time_frames_exact.  Print Assumptions C05_time_frames_monotone.
-Print Assumptions C05_attr_roundtrip_enum.  Print Assumptions C05_attr_roundtrip_bool.  Print Assumptions C05_attr_roundtrip_color.
-Print Assumptions C05_attr_roundtrip_background_partial.  Print Assumptions C05_length_roundtrip_partial.
-Print Assumptions C05_attr_roundtrip_length_partial.  Print Assumptions C05_attr_roundtrip_line_height_partial.
-Print Assumptions C05_attr_roundtrip_line_padding_partial.  Print Assumptions C05_attr_roundtrip_extent_partial.
-Print Assumptions C05_attr_roundtrip_origin_partial.  Print Assumptions C05_attr_roundtrip_padding_partial.
-Print Assumptions C05_total_partial.
 Print Assumptions C05_time_clock_frames.  Print Assumptions C05_time_clock_frames_error.  Print Assumptions C05_frame_rate_roundtrip.
-Print Assumptions C05_attr_roundtrip_text_decoration.  Print Assumptions C05_attr_roundtrip_ruby_reserve_partial.  Print Assumptions C05_attr_roundtrip_text_outline_partial.  Print Assumptions C05_attr_roundtrip_position_partial.  Print Assumptions C05_attr_roundtrip_text_shadow_partial.  Print Assumptions C05_attr_roundtrip_text_emphasis_partial.
+Print Assumptions C05_attr_roundtrip_enum.  Print Assumptions C05_attr_roundtrip_bool.  Print Assumptions C05_attr_roundtrip_color.
+Print Assumptions C05_attr_roundtrip_background_partial.  Print Assumptions C05_length_roundtrip.
+Print Assumptions C05_attr_roundtrip_length.  Print Assumptions C05_attr_roundtrip_line_height.
+Print Assumptions C05_attr_roundtrip_line_padding_partial.  Print Assumptions C05_attr_roundtrip_extent.
+Print Assumptions C05_attr_roundtrip_origin.  Print Assumptions C05_attr_roundtrip_padding.
+Print Assumptions C05_attr_roundtrip_text_decoration.  Print Assumptions C05_attr_roundtrip_ruby_reserve.  Print Assumptions C05_attr_roundtrip_text_outline.
+Print Assumptions C05_attr_roundtrip_position.  Print Assumptions C05_attr_roundtrip_text_shadow.  Print Assumptions C05_attr_roundtrip_text_emphasis.
+Print Assumptions C05_attr_roundtrip_none.  Print Assumptions C05_attr_roundtrip_number.  Print Assumptions C05_attr_roundtrip_integer.
+Print Assumptions C05_attr_roundtrip_shear_partial.  Print Assumptions C05_total.
+Print Assumptions C05_tree_every_kind_written.  Print Assumptions C05_tree_kind.  Print Assumptions C05_tree_children.  Print Assumptions C05_tree_leaf.
+Print Assumptions C05_tree_space.  Print Assumptions C05_tree_region.  Print Assumptions C05_tree_begin.  Print Assumptions C05_tree_end.
+Print Assumptions C05_tree_par.  Print Assumptions C05_tree_no_dur_no_refs.
+Print Assumptions C05_tt_lang.  Print Assumptions C05_tt_cell_resolution.  Print Assumptions C05_tt_display_aspect_ratio.  Print Assumptions C05_tt_no_display_aspect_ratio.
